@@ -670,4 +670,40 @@ theorem replaceStep_delete_applies (S : Schema) (hdet : DetS S) (hleaf : LeafOk 
             exact close_around_applies S hdet hleaf hfl hcl hts hjc hro hiu hf ht htg hv hn hattrs hhc hpf hpt hft
               st0 h0 hmi c.1 c.2 hc
 
+/-! ### pair-alignment of a position from the document's tokens -/
+
+/-- a position that is pair-aligned in the document is pair-aligned in the text child it resolves into -/
+theorem pairOk_of_aligned {ty0 : TypeId} {a0 : Attrs} {m0 : Marks} {K : List Node} {pos : Nat} {r : RPos}
+    (h : (Node.elem ty0 a0 m0 K).resolve pos = some r) (hn : fnorm K = true) (ha : alignedAt K pos = true) :
+    r.pairOk = true := by
+  have R := resolve_resolved h
+  by_cases ho : r.textOffset = 0
+  · simp [RPos.pairOk, ho]
+  · obtain ⟨s, m, hs, hlt⟩ := R.in_text ho
+    simp only [RPos.pairOk, hs, Bool.or_eq_true, decide_eq_true_eq]
+    right
+    obtain ⟨hK0, hpos, _, hle⟩ := doc_plug h
+    have hK : K = plug (framesFrom r 0 r.depth) r.parent.kids := hK0
+    rw [hpos, hK, plug_aligned _ _ _ (plug_norm _ _ (hK ▸ hn)).1 hle] at ha
+    have E := R.entry r.depth (Nat.le_refl _)
+    have hpe : (r.entry r.depth).pos = r.start r.depth + fsize (r.parent.kids.take (r.index r.depth)) := E.pos_eq
+    have hto : r.textOffset = pos - (r.entry r.depth).pos := by unfold RPos.textOffset; rw [R.pos_eq]
+    have hple := E.pos_le
+    have hsplit := kids_split _ _ _ hs
+    have e : pos - r.start r.depth = fsize (r.parent.kids.take (r.index r.depth)) + r.textOffset := by omega
+    rw [e] at ha
+    conv at ha => lhs; arg 1; rw [hsplit]
+    rw [alignedAt_append_pre, alignedAt_cons, if_neg ho, if_neg (by simp only [Node.size_text]; omega)] at ha
+    exact ha
+
+/-- … and conversely -/
+theorem aligned_of_pairOk {ty0 : TypeId} {a0 : Attrs} {m0 : Marks} {K : List Node} {pos : Nat} {r : RPos}
+    (h : (Node.elem ty0 a0 m0 K).resolve pos = some r) (hn : fnorm K = true) (hp : r.pairOk = true) :
+    alignedAt K pos = true := by
+  obtain ⟨hK0, hpos, _, hle⟩ := doc_plug h
+  have hK : K = plug (framesFrom r 0 r.depth) r.parent.kids := hK0
+  obtain ⟨hFl, _, _⟩ := resolved_flatAt h hp
+  rw [hpos, hK, plug_aligned _ _ _ (plug_norm _ _ (hK ▸ hn)).1 hle]
+  exact hFl.aligned
+
 end PM
